@@ -39,6 +39,7 @@ EXPLANATION += (' R-C07-9: the look-up methods are functions of the constructor-
 EXPLANATION += (' R-C07-10: no table cache shared between Binned objects under a key that leaves out something the tables depend on (bin count), no caching decorator / unreset memo attribute on the class (memo rule, built-in positive examples).')
 EXPLANATION += (' R-C07-8: the look-up tables are built once in the constructor and never re-ordered afterwards.')
 EXPLANATION += (' R-C07-11: with per-point look-up tables the class of every point is searched in that point\'s own table (a search with the first point\'s load for all points returns, at a class edge, the neighbouring class for some points); open known finding in the four look-up methods.')
+EXPLANATION += (" R-C07-6 also requires the grid not to be built from a class width computed first (max / N rounded, then multiplied with the class index): the last edge must be the initialised maximum exactly, which (i / N) * max guarantees for i = N.")
 ASSUMPTIONS = [
     "numpy/pandas searchsorted(side='left') returns p with a[p-1] < v <= a[p] on an ascending array",
     "the wrapped law is monotone (C06) so the table's load column is ascending",
@@ -127,6 +128,27 @@ class Writer:
             if cols:
                 self.ctors.append(fi)
                 self.tables[fi.key] = cols
+
+
+def _width_first(g, atom):
+    """a quotient inside the grid expression whose numerator contains the maximum load but not the class index and whose
+    denominator contains the number of classes: the class width is rounded before it is multiplied with the index"""
+    def kinds(e):
+        out = set()
+        for n in ast.walk(e):
+            try:
+                a = atom(n)
+            except Exception:
+                a = None
+            if a in ("i", "MAX", "NB"):
+                out.add(a)
+        return out
+    for n in ast.walk(g):
+        if isinstance(n, ast.BinOp) and isinstance(n.op, ast.Div):
+            kl, kr = kinds(n.left), kinds(n.right)
+            if "MAX" in kl and "i" not in kl and "NB" in kr:
+                return n
+    return None
 
 
 def tables_fixed(ctx, ci):
@@ -368,7 +390,14 @@ def run(ctx):
                     ranges = _arange_args(g)
                     same = all(affine_eval(a, _nbins_atom) == start and affine_eval(b, _nbins_atom) == stop
                                for a, b in ranges)
-                    if same:
+                    width_first = _width_first(g, atom)
+                    if same and width_first is not None:
+                        ctx.violated(fi, gs, "grid of %s.%s multiplies the class index with a class width computed first (%s): for the "
+                                     "last class N * fl(max / N) is not max in floating point (429.24 with 100 classes gives "
+                                     "429.23999999999995), so a load equal to the initialised maximum is refused as out of range and "
+                                     "the tables differ from those of the other constructor; (i / N) * max is exact for i = N"
+                                     % (tab, d["grid_col"], norm_text(width_first)[:60]), text="grid of %s: class width first" % tab)
+                    elif same:
                         ctx.holds(fi, gs, "grid of %s.%s is i*max/N" % (tab, d["grid_col"]), {"nf": repr(nf)})
                     else:
                         ctx.violated(fi, gs, "grid of %s is computed on a different class range than its labels" % tab)
